@@ -1314,6 +1314,14 @@ def r4(ctx):
                         used = [x.id for x in ast.walk(s_.value) if isinstance(x, ast.Name) and x.id in tainted]
                         if used:
                             bad.append((s_, used[0]))
+            for st in after_stmts:
+                for s_ in stores(st, into_defs=False):
+                    if s_.kind == "assign" and s_.path == f"{fv}.response":
+                        kept = any((ap(e) or "") == f"{fv}.response_injected" and not pol for e, pol in facts(s_.node, m.node))
+                        ctx.ob(R, f"{m.qual}: default handling sets `{s_.path}` only when no response was injected "
+                                  f"[{norm(s_.value)[:60]}]", kept, ctx.w(m, s_.node),
+                               f"after {norm(hc.func)} ran an addon may have answered the request itself "
+                               f"({fv}.response_injected): this assignment replaces its response before the flow is handed back")
             for s_, nm in bad:
                 ctx.ob(R, f"{m.qual}: `{norm(s_.node)}` does not write back a value read before {norm(hc.func)}", False,
                        ctx.w(m, s_.node), f"`{nm}` derives from `{tainted[nm]}` as it was before the addon hooks ran: an addon's "
@@ -1402,8 +1410,8 @@ def r5(ctx):
     repo = ctx.repo
     R = "C15.R5"
     ctx.rule(R, "code that holds a taken flow (a function outside the event manager that calls <param>.resume()) resumes "
-                "it on every exit on which there is evidence of an exception: an explicit raise/assert or an enclosing "
-                "deadline (asyncio.timeout / wait_for) must not be able to skip the resume")
+                "it on every exit on which there is evidence of an exception: an await (cancellation), an explicit "
+                "raise/assert or an enclosing deadline (asyncio.timeout / wait_for) must not be able to skip the resume")
     n = 0
     for f, c in call_index(repo).get("resume", []):
         if c.args or not isinstance(c.func, ast.Attribute) or not isinstance(c.func.value, ast.Name):
@@ -1431,8 +1439,8 @@ def r5(ctx):
             e = cfg_node_expr(cfg, nd)
             if e is None:
                 return False
-            if any(isinstance(x, (ast.Raise, ast.Assert)) for x in walk(e)):
-                return True
+            if any(isinstance(x, (ast.Raise, ast.Assert, ast.Await)) for x in walk(e)):
+                return True       # an await can always complete with CancelledError (task killed on addon unload ...)
             if nd.ast is not None and id(nd.ast) in deadline_bodies and any(isinstance(x, (ast.Await, ast.Call)) for x in walk(e)):
                 return True
             return any(isinstance(x, ast.Call) and call_attr(x) in _DEADLINE_CALLS and
